@@ -49,6 +49,19 @@ pub fn c_limit<'a>(a: SP<'a>, b: SP<'a>, s: SG<'a>) {
     out_total(a.limit(q!(2)));
 }
 
+/// Fold / reduce of a BOUNDED top-level source (compiled to fold_no_replay / reduce_no_replay),
+/// turned back into a stream: the value must appear exactly once, in front of the input.
+pub fn c_bounded_fold_stream<'a>(a: SP<'a>, b: SP<'a>, s: SG<'a>) {
+    let p = a.location().clone();
+    let f = p.source_iter(q!(vec![5, 6])).fold(q!(|| 0i32), q!(|acc, v| *acc += v));
+    out_total(f.into_stream().map(q!(|f| (9, f))).chain(a));
+}
+pub fn c_bounded_reduce_stream<'a>(a: SP<'a>, b: SP<'a>, s: SG<'a>) {
+    let p = a.location().clone();
+    let f = p.source_iter(q!(vec![5, 6])).reduce(q!(|acc, v| *acc += v));
+    out_total(f.into_stream().map(q!(|f| (9, f))).chain(a));
+}
+
 /// Two bounded singletons zipped (embedded singleton x fold of a bounded source), crossed with the input.
 pub fn c_zip_count_fold<'a>(a: SP<'a>, b: SP<'a>, s: SG<'a>) {
     let p = a.location().clone();
